@@ -9,7 +9,7 @@ EXPLANATION = ('R1: every raw HashMap<Key,Value> lookup (get/contains_key/get_ke
                'with `m[k]`, which goes through Map::get (int/uint cross lookup); lookups whose key is built from a string/bool type are allowed because those kinds have no numeric twin. '
                'R2: Map::get tries the key as given and falls back to the converted key only on a miss, converting Int<->Uint with try_from (no `as`). '
                'R3: list indexing uses slice::get (never Index) and maps a miss to Null; `in` on lists uses slice::contains (PartialEq); map literals insert every entry with the evaluated key and value. '
-               'Only this lookup-agreement clause is decided; additivity of size and order of concatenation are delegated to std and not examined.')
+               'R4: list/string `+` appends the right operand to a copy-on-write view of the left one and returns that buffer (order preserved, operands intact by Arc::make_mut); R5: size() is len() of the receiver\'s own payload. Additivity of size then follows from std\'s append/extend/push_str contracts, which are trusted.')
 ASSUMPTIONS = ['size/+ laws follow from Vec::append/extend and String::push_str (std) and are not re-derived', 'has() compares key text and member() uses a String key: both allowed by R1 since strings have no numeric twin']
 
 LOOKUPS = {'std::collections::HashMap::get', 'std::collections::HashMap::contains_key', 'std::collections::HashMap::get_key_value',
@@ -176,11 +176,51 @@ def check_r3(fx, rep):
     rep.check(okk, 'R3', 'map-literal/insert-evaluated-key-value', b.loc(), 'map.insert(resolve(key), resolve(value)) per entry', 'map literal does not insert the evaluated key/value of every entry')
 
 
+def check_concat_size(fx, rep):
+    """R4: concatenation appends rhs to self (order), result is self's buffer; R5: size() is len() of the receiver's own payload"""
+    from .c08 import find_impl_body
+    rep.rule('R4', 'list/string `+`: rhs is appended to (a copy-on-write view of) self, the result wraps self\'s buffer')
+    rep.rule('R5', 'size(): len() of the receiver\'s own payload for list, map, string, bytes')
+    b = find_impl_body(fx, 'std::ops::Add', 'cel_interpreter::objects::Value')
+    rep.analysed(b)
+    pv = F.Prov(b)
+    want = {
+        'List': [('std::vec::Vec::append', 'make_mut((arg1 as List).0)', 'get_mut((arg2 as List).0)'), ('std::iter::Extend::extend', 'make_mut((arg1 as List).0)', '(arg2 as List).0')],
+        'String': [('std::string::String::push_str', 'make_mut((arg1 as String).0)', '(arg2 as String).0')],
+    }
+    got = []
+    for bi, t in b.calls():
+        n = F.norm_callee(t)
+        if n in ('std::vec::Vec::append', 'std::iter::Extend::extend', 'std::string::String::push_str', 'std::vec::Vec::extend_from_slice', 'std::vec::Vec::insert', 'std::string::String::insert_str'):
+            got.append((n, '|'.join(sorted(F.term_str(x) for x in pv.of_operand(t['args'][0]))), '|'.join(sorted(F.term_str(x) for x in pv.of_operand(t['args'][1])))))
+    for kind, exp in want.items():
+        mine = [g for g in got if ('as %s)' % kind) in g[1] or ('as %s)' % kind) in g[2]]
+        rep.check(sorted(mine) == sorted(exp), 'R4', 'concat/%s/rhs-appended-to-self' % kind, b.loc(), '; '.join('%s(%s, %s)' % (g[0].rsplit('::', 1)[-1], g[1], g[2]) for g in mine),
+                  '%s concatenation performs %s, expected %s: element order or the operands are not preserved' % (kind, mine, exp))
+        aggs = [s for _, _, s in b.stmts() if s['k'] == 'Assign' and s['rv']['k'] == 'Aggregate' and s['rv'].get('adt', '').endswith('objects::Value') and s['rv'].get('variant') == kind]
+        okk = len(aggs) == 1 and sorted(F.term_str(x) for x in pv.of_operand(aggs[0]['rv']['ops'][0])) == ['(arg1 as %s).0' % kind]
+        rep.check(okk, 'R4', 'concat/%s/result-is-self-buffer' % kind, b.loc(), 'Value::%s(self buffer after the append)' % kind, 'the result of %s concatenation is not self\'s (copy-on-write) buffer' % kind)
+    sb = fx.body('cel_interpreter::functions::size')
+    rep.analysed(sb)
+    spv = F.Prov(sb)
+    lens = {}
+    for bi, t in sb.calls():
+        n = F.norm_callee(t)
+        if n.endswith('::len'):
+            for x in spv.of_operand(t['args'][0]):
+                lens[F.term_str(x)] = n
+    exp = {'(arg2.0 as List).0': 'std::vec::Vec::len', '(arg2.0 as Map).0.map': 'std::collections::HashMap::len', '(arg2.0 as String).0': 'std::string::String::len', '(arg2.0 as Bytes).0': 'std::vec::Vec::len'}
+    rep.check(lens == exp, 'R5', 'size/len-of-own-payload', sb.loc(), 'list/map/string/bytes -> len()', 'size() computes %s, expected %s' % (lens, exp))
+    casts = [s for _, _, s in sb.stmts() if s['k'] == 'Assign' and s['rv']['k'] == 'BinaryOp' and s['rv']['op'].rstrip('WithOverflow') in ('Add', 'Sub', 'Mul')]
+    rep.check(not casts, 'R5', 'size/no-arithmetic', sb.loc(), 'the length is returned as is', 'size() adjusts the length arithmetically')
+
+
 def run(fx, rep):
     mg = 'cel_interpreter::objects::Map::get'
     n = core(fx, rep, 'cel_interpreter', mg, {mg, mg + '::{closure#0}'})
     check_map_get(fx, rep, mg)
     check_r3(fx, rep)
+    check_concat_size(fx, rep)
     rep.floor('R1', 9, '(raw: Map::get x2, member(); via Map::get: index x4, @in, contains())')
     rep.floor('R2', 6)
     rep.floor('R3', 9)
